@@ -87,18 +87,18 @@ func VfRIB_qNoFwd() {
 // t1: all slots (1 next-hop, 1 group, 1 top-level entry of any kind, 1 held operation) in EITHER instance,
 // both forward-reference modes; one fully symbolic operation with <=2 members.
 func VfRIB_t1() {
-	vfRIBRun(vfRunCfg{fwdBoth: true, pre: vfPreCfg{nNH: 1, nNHG: 1, nTop: 1, nHeld: 1, members: 1, topKinds: vfTopAll}, steps: 1, members: 2})
+	vfRIBRun(vfRunCfg{fwdBoth: true, pre: vfPreCfg{nNH: 1, nNHG: 1, nTop: 1, nHeld: 1, members: 1, topKinds: vfTopAll}, fixLow: true, steps: 1, members: 2})
 }
 
 // t1r: optional payload fields everywhere (tags, backup groups, metadata, held REPLACE) with the
 // lower slots in the default instance; one fully symbolic operation.
 func VfRIB_t1r() {
-	vfRIBRun(vfRunCfg{pre: vfPreCfg{nNH: 1, nNHG: 1, nTop: 1, nHeld: 1, members: 1, topKinds: vfTopQ}, rich: true, fixLow: true, steps: 1, members: 2})
+	vfRIBRun(vfRunCfg{pre: vfPreCfg{nNH: 1, nNHG: 1, nTop: 1, members: 1, topKinds: []int{vfKV4}}, rich: true, fixLow: true, steps: 1, members: 1})
 }
 
 // t2: TWO consecutive symbolic operations from 1 next-hop + 1 group.
 func VfRIB_t2() {
-	vfRIBRun(vfRunCfg{pre: vfPreCfg{nNH: 1, nNHG: 1, members: 1, topKinds: []int{vfKV4}}, fixLow: true, steps: 2, members: 1})
+	vfRIBRun(vfRunCfg{pre: vfPreCfg{nNH: 1, nNHG: 1, members: 1, topKinds: []int{vfKV4}}, fixLow: true, steps: 2, members: 1, kinds: []int{vfKNH, vfKNHG, vfKV4}})
 }
 
 // tOrder: two held operations (groups or IPv4 entries) and every order of the held-operation walk;
